@@ -606,6 +606,9 @@ class EGraph:
         n = (inst.id, bb)
         t = inst.body["blocks"][bb]["term"]
         sub = self.callee_inst.get(n)
+        if sub is not None and getattr(self, "opaque_rx", None) and re.search(self.opaque_rx, sub.key):
+            # a read of mutable state through an accessor: keep the call (and thereby the moment of the read) as a node
+            return ("call", sub.key, tuple(self.prov_operand(inst, a) for a in t["args"]), n)
         if sub is not None:
             d0 = self.prog.defs(sub.key).get(0, [])
             if len(d0) == 1:
@@ -643,6 +646,22 @@ class EGraph:
             def __exit__(self_, *a):
                 g._prov_memo = self_.saved
                 g.keep_clones = False
+        return _C()
+
+    def with_opaque(self, rx):
+        """context manager: inlined callees whose key matches rx are not looked through; their results stay ('call', key, args, node)"""
+        g = self
+
+        class _C:
+            def __enter__(self_):
+                self_.saved = g._prov_memo
+                g._prov_memo = {}
+                g.opaque_rx = rx
+                return g
+
+            def __exit__(self_, *a):
+                g._prov_memo = self_.saved
+                g.opaque_rx = None
         return _C()
 
     # ---- slots (memory locations for tags) ------------------------------------------
